@@ -1,6 +1,7 @@
 import Ovldverif.Model.SortTypes
 import Ovldverif.Model.Rank
 import Ovldverif.Model.Cache
+import Ovldverif.Spec.CacheSpec
 /-!
 # Layer D (3/3): `TypeMap` / `MultiTypeMap` (typemap.py L12-55, L79-234, L303-388)
 
@@ -160,6 +161,13 @@ def touchT (cfg : Cfg) (ms : List Meth) (tc : List (Slot × Ty)) (k : Key) : Lis
     match tmLookup cfg ms e.1 e.2 with
     | some (_ :: _) => if tc.contains e then tc else tc ++ [e]
     | _ => tc) tc
+
+/-- does `table[ck]` run `resolve` (hence `mro`, `sort_types`, `typeorder`, `subclasscheck` and with them the
+    user's class predicates and hooks)? -/
+def MMap.resolvesAt (cfg : Cfg) (mm : MMap) (ck : CKey Key) : Bool :=
+  match ck with
+  | (_, []) => false
+  | (c, k) => resolves (plan cfg mm.meths) mm.st (c, k)
 
 /-- `table[ck]` -/
 def MMap.lookup (cfg : Cfg) (mm : MMap) (ck : CKey Key) : MMap × Res Entry (List Nat) :=
